@@ -169,9 +169,11 @@ def run(ctx):
     idx = dotted(lp.target)
     augs = [s for s in ast.walk(run_.node) if isinstance(s, ast.AugAssign)
             and "self.reminders" in norm_stmt(s.target)]
+    # element writes `self.reminders[name][k] = v` (creating the per-name table,
+    # `self.reminders[name] = defaultdict(int)`, is initialisation, not an update)
     writes = [s for s in ast.walk(run_.node) if isinstance(s, ast.Assign)
-              and any(isinstance(t, ast.Subscript) and "self.reminders" in norm_stmt(t)
-                      for t in s.targets)]
+              and any(isinstance(t, ast.Subscript) and isinstance(t.value, ast.Subscript)
+                      and "self.reminders" in norm_stmt(t) for t in s.targets)]
     probs = []
     newv = oldv = None
     if len(augs) != 1 or writes or not isinstance(augs[0].op, ast.Add):
@@ -250,8 +252,23 @@ def run(ctx):
                 g = [(norm_stmt(e).replace(" ", ""), p) for e, p, _ in cx.guards(n)]
                 if (f"{px[1]}notinself.cache", True) in g:
                     first = True
-                    addc = [c for c in calls_in(fx.node) if isinstance(c.func, ast.Attribute)
-                            and c.func.attr == "_add_dict"]
+                    # the snapshot is stored: self.cache[name] = input, here or in a
+                    # method of the class called from here
+                    def stores_snapshot(fnode, pin, pnm):
+                        return any(isinstance(s_, ast.Assign)
+                                   and isinstance(s_.targets[0], ast.Subscript)
+                                   and dotted(s_.targets[0].value) == "self.cache"
+                                   and dotted(s_.targets[0].slice) == pnm
+                                   and dotted(s_.value) == pin for s_ in ast.walk(fnode))
+                    if stores_snapshot(fx.node, px[0], px[1]):
+                        addc = [fx.node]
+                    for c in calls_in(fx.node):
+                        if isinstance(c.func, ast.Attribute) and dotted(c.func.value) == "self" \
+                                and c.func.attr in meths and [dotted(a_) for a_ in c.args] == px:
+                            hm = meths[c.func.attr][0]
+                            hp = [a_.arg for a_ in hm.node.args.args if a_.arg != "self"]
+                            if len(hp) == 2 and stores_snapshot(hm.node, hp[0], hp[1]):
+                                addc = [c]
     if first and addc:
         ctx.ok("C10.R2", "first-call", sample="name not in cache -> store, return raw dict")
     else:
@@ -335,8 +352,9 @@ def run(ctx):
             gk = [s_]
             diff = d_
     dels = [s for s in ast.walk(rdr.node) if isinstance(s, ast.Delete)]
-    okd = len(dels) >= 2 and any("self.reminders" in norm_stmt(d) for d in dels) \
-        and any("self.reminder_keys" in norm_stmt(d) for d in dels)
+    dtx = [norm_stmt(deref(rdr.node, t_)) for d in dels for t_ in d.targets]
+    okd = len(dels) >= 2 and any("self.reminders" in x for x in dtx) \
+        and any("self.reminder_keys" in x for x in dtx)
     rparams = [a.arg for a in rdr.node.args.args if a.arg != "self"]
     left_is_old = diff is not None and "self.cache" in norm_stmt(diff.left) \
         and rparams and rparams[0] in norm_stmt(diff.right) \
